@@ -39,13 +39,16 @@ ALL_CLAIMS = {
             "differ from the definition, per activated prefilter variant"),
     "C06": ("3 C06", BMC + "packed Rabin-Karp find_in/FindIter on fully symbolic exactly-sized haystacks and spans vs "
             "the leftmost definition; 128-bit slim Teddy (pshufb stubbed by its lane semantics) on windowed symbolic "
-            "content around the vector boundary; the candidate-verification primitives shared by every packed variant "
-            "(is_prefix, Pattern::is_prefix_raw, is_equal_raw) as units for needle lengths 0..13 with symbolic contents",
+            "content around the vector boundary; fat Teddy and 256-bit slim Teddy (AVX2; vpshufb stubbed) on the same "
+            "windows through a direct call of the concrete implementation; the candidate-verification primitives shared "
+            "by every packed variant (is_prefix, Pattern::is_prefix_raw, is_equal_raw) as units for needle lengths 0..13 "
+            "with symbolic contents",
             "SAT-decided equality with the leftmost definition for Rabin-Karp (all contents up to N bytes) and for "
-            "Teddy on a symbolic window at stated offsets of a 16..19 byte haystack"),
+            "Teddy (128-bit slim, 256-bit slim, fat) on a symbolic window at stated offsets of a 16..35 byte haystack"),
     "C07": ("3 C07", "Kani/CBMC inductive step of StreamChunkIter::next from an arbitrary pre-state under an explicit "
-            "invariant, symbolic stream, symbolic read-size schedule, small buffer capacity via the hook; plus complete "
-            "runs from the real constructor on short streams",
+            "invariant, symbolic stream (incl. streams shorter than the longest pattern), symbolic read-size schedule, "
+            "small buffer capacity via the hook; the constructor's state (directly and through the top-level searcher's "
+            "Arc<dyn> forwarders) as base case; thorough: complete runs from the real constructor on short streams",
             "one next() from every state satisfying Inv yields the next chunk of the specification and re-establishes "
             "Inv, for every read schedule: covers streams of any length for the case/capacity"),
     "C08": ("3 C08", "same inductive step (chunk positions and bytes: concatenation of chunks is the stream, match "
@@ -88,16 +91,18 @@ ALL_CLAIMS = {
             "the built-in search on symbolic haystacks",
             "exhaustive per automaton over states reachable from the start states; recipe equality up to N bytes"),
     "C17": ("3 C17", BMC + "sequential purity: an arbitrary symbolic search (and an overlapping step) before a second "
-            "symbolic search does not change its result, and a clone answers identically; concurrent schedules are "
-            "outside the claim",
+            "symbolic search does not change its result, a clone answers identically, and a search after another "
+            "search over one and the same haystack object equals the definition; concurrent schedules are outside the claim",
             "SAT-decided independence from an arbitrary prior search, K=2 suffices by induction"),
     "C18": ("3 C18", "the C07 inductive step with a reader failing at a symbolic call, and complete stream "
             "replacement runs with a writer failing at a symbolic call",
             "an injected failure surfaces as Err, never a panic, nothing yielded/written before it is wrong, Inv is "
             "preserved across the error, end of stream only after the reader reported it"),
     "C19": ("3 C19", BMC + "hook counters: transitions <= span length, positions strictly increasing, failure-link "
-            "traversals <= transitions (0 for the DFA) on symbolic haystacks; structural lemma depth(fail(s)) < depth(s) "
-            "for every state of the dumped NFA",
+            "traversals <= transitions (0 for the DFA) on symbolic haystacks (find and one overlapping step); through the "
+            "memchr contract model: prefilter scans start at non-decreasing offsets, stay inside the span, and a "
+            "start-byte prefilter examines each byte at most twice; structural lemma depth(fail(s)) < depth(s) for "
+            "every state of the dumped NFA",
             "SAT-decided work bound per search for haystacks up to N bytes plus the per-state lemma that makes it "
             "length independent"),
 }
